@@ -20,9 +20,8 @@
   a DL status without any open port is rejected up front and a junction without a free port gives
   `Err(Error::Topology)`; `inconsistent_is_error` is now the full statement (no hypothesis on the
   reports beyond their types); the former witnesses are in `inconsistent_reports_rejected`.
-   * i64 overflow of the offset in checked builds (c17/offset-i64-overflow): `offset_formula`
-     is unconditional for release builds and conditional (`OffsetFits`) for checked builds;
-     `offset_formula_counterexample`.
+  FIXED (was c17/offset-i64-overflow): the offset is computed with `wrapping_sub`; `offset_value`
+  holds for every pair of 64-bit values in both build modes (`offset_former_witnesses`).
   Configuration note: the model follows the build used by the harness (no `log`/`defmt` feature),
   in which `fmt::debug!` arguments are evaluated; see the header of EcModel/Dc.lean.
 -/
@@ -180,20 +179,13 @@ theorem port_time_wrap_counterexample :
 
 /-! ### clause 4: offset = master time − latched receive time -/
 
-/-- Release builds: for every 64-bit receive time and master time the value written to 0x0920 is
-    `now − receive time` as a two's-complement 64-bit number. -/
-theorem offset_wrapping (rx now : Nat) (h1 : rx < U64) (h2 : now < U64) :
-    offsetI64 .wrapping rx now = .ok ((now + U64 - rx) % U64) :=
-  offsetI64_wrapping rx now h1 h2
+/-- Every build mode, every 64-bit receive time and master time: the value written to 0x0920 is
+    `now − receive time` as a two's-complement 64-bit number; the computation cannot fail. -/
+theorem offset_value (m : Mode) (rx now : Nat) (h1 : rx < U64) (h2 : now < U64) :
+    offsetI64 m rx now = .ok ((now + U64 - rx) % U64) :=
+  offsetI64_value m rx now h1 h2
 
-/-- Checked builds: the same value whenever the `i64` negate/add does not overflow, a panic
-    otherwise (and nothing else). -/
-theorem offset_checked (rx now : Nat) (h1 : rx < U64) (h2 : now < U64) :
-    (OffsetFits rx now → offsetI64 .checked rx now = .ok ((now + U64 - rx) % U64)) ∧
-    (¬ OffsetFits rx now → ∃ w, offsetI64 .checked rx now = .panic w) :=
-  ⟨offsetI64_checked rx now h1 h2, offsetI64_checked_panics rx now h1 h2⟩
-
-/-- `configure_dc`, either build mode: if it returns, then — in frame order, for exactly the
+/-- `configure_dc`, either build mode: if it returns a value, then — in frame order, for exactly the
     DC-capable devices — it has written `now − receive time` (64-bit two's complement, little
     endian) to 0x0920 and the programmed delay to 0x0928 of that device's station address, where the
     receive time is the one latched from register 0x0918 of that device. -/
@@ -241,12 +233,12 @@ theorem offset_formula (m : Mode) (now : Nat) (rs : List Report) (ws : List Writ
         · exact hrx r hr
         · simp only; decide
 
-/-- Known finding c17/offset-i64-overflow (checked builds only). -/
-theorem offset_formula_counterexample :
-    offsetI64 .checked 9223372036854775808 5 = .panic "attempt to negate with overflow" ∧
-    offsetI64 .checked 9223372036854775809 9223372036854775807 = .panic "attempt to add with overflow" ∧
-    offsetI64 .wrapping 9223372036854775808 5 = .ok 9223372036854775813 := by
-  decide
+/-- The former witnesses of c17/offset-i64-overflow (panics in checked builds before the fix) now
+    give the two's-complement difference in both build modes. -/
+theorem offset_former_witnesses (m : Mode) :
+    offsetI64 m 9223372036854775808 5 = .ok 9223372036854775813 ∧
+    offsetI64 m 9223372036854775809 9223372036854775807 = .ok 18446744073709551614 := by
+  cases m <;> refine ⟨by decide, by decide⟩
 
 /-! ### clause 5: the first DC-capable device becomes the reference -/
 
@@ -302,13 +294,13 @@ theorem inconsistent_is_error (m : Mode) (rs : List Report) (w : String)
   rcases mkDevsFrom_mem _ _ _ d hd with ⟨i, r, hr, rfl⟩
   exact timesOk_devOfReport i r (htimes r hr)
 
-/-- The whole of `configure_dc` (latch, topology, delays, offset writes) in release builds: no panic
-    either. (In checked builds the `i64` offset can panic: known finding above.) -/
-theorem inconsistent_is_error_configure_dc (now : Nat) (rs : List Report) (ws : List Write) (w : String)
+/-- The whole of `configure_dc` (latch, topology, delays, offset and delay writes), either build
+    mode, ARBITRARY reports and 64-bit clock values: never a panic. -/
+theorem inconsistent_is_error_configure_dc (m : Mode) (now : Nat) (rs : List Report) (ws : List Write) (w : String)
     (htimes : ∀ r ∈ rs, r.t0 < U32 ∧ r.t1 < U32 ∧ r.t2 < U32 ∧ r.t3 < U32)
     (hnow : now < U64) (hrx : ∀ r ∈ rs, r.rx < U64) :
-    configureDc .wrapping now rs ≠ (ws, .panic w) :=
-  configureDc_no_panic_wrapping now rs ws w htimes hnow hrx
+    configureDc m now rs ≠ (ws, .panic w) :=
+  configureDc_no_panic m now rs ws w htimes hnow hrx
 
 /-- ... and for every valid tree without nested junctions (no wrap) there is no panic and no error
     at all (restating `parent_is_true_parent_partial`). -/
